@@ -330,3 +330,118 @@ def raised_name(r):
     if isinstance(e, ast.Call):
         return dotted(e.func)
     return dotted(e)
+
+
+# ---------------------------------------------------------------------- structured reaching definitions
+
+def _child_blocks(s):
+    out = []
+    for field in ('body', 'orelse', 'finalbody'):
+        b = getattr(s, field, None)
+        if isinstance(b, list) and b and isinstance(b[0], ast.stmt):
+            out.append(b)
+    if isinstance(s, ast.Try):
+        for h in s.handlers:
+            out.append(h.body)
+    return out
+
+
+def block_path(func, stmt):
+    """[(block, index, owner_stmt)] from outermost to innermost block containing stmt; None if absent."""
+    def rec(block, owner):
+        for i, s in enumerate(block):
+            if s is stmt:
+                return [(block, i, owner)]
+            if isinstance(s, (ast.FunctionDef, ast.AsyncFunctionDef, ast.ClassDef)):
+                continue
+            for b in _child_blocks(s):
+                r = rec(b, s)
+                if r is not None:
+                    return [(block, i, owner)] + r
+        return None
+    return rec(func.body, func)
+
+
+def binds(stmt, name):
+    """Does this statement (not descending into nested blocks) bind Name `name`?"""
+    for t in assigned_targets(stmt):
+        for n in ast.walk(t):
+            if isinstance(n, ast.Name) and n.id == name:
+                return True
+    return False
+
+
+def binds_deep(stmt, name):
+    if binds(stmt, name):
+        return True
+    for b in _child_blocks(stmt):
+        for s in stmts_in(b):
+            if binds(s, name):
+                return True
+    return False
+
+
+AMBIGUOUS = 'ambiguous'
+PARAM = 'param'
+
+
+def reaching_def(func, name, stmt):
+    """The unique structured reaching definition of `name` at `stmt`:
+    a statement node, PARAM, AMBIGUOUS (assigned inside a preceding compound statement / loop body later), or None."""
+    path = block_path(func, stmt)
+    if path is None:
+        return None
+    for block, idx, owner in reversed(path):
+        for s in reversed(block[:idx]):
+            if binds(s, name):
+                return s
+            if binds_deep(s, name):
+                return AMBIGUOUS
+        # enclosing loop: a later assignment in the loop body reaches via the back edge
+        if isinstance(owner, (ast.For, ast.While, ast.AsyncFor)):
+            if isinstance(owner, (ast.For, ast.AsyncFor)) and binds(owner, name):
+                return owner
+            for s in block[idx:]:
+                if binds_deep(s, name) and s is not stmt:
+                    return AMBIGUOUS
+            if binds(stmt, name) and isinstance(stmt, ast.AugAssign):
+                return AMBIGUOUS
+        if isinstance(owner, (ast.With, ast.AsyncWith)) and binds(owner, name):
+            return owner
+    a = func.args
+    if name in [x.arg for x in a.posonlyargs + a.args + a.kwonlyargs] or (a.vararg and a.vararg.arg == name) \
+            or (a.kwarg and a.kwarg.arg == name):
+        return PARAM
+    return None
+
+
+def def_value(d):
+    """Value expression of a simple definition statement, else None."""
+    if isinstance(d, ast.Assign) and len(d.targets) == 1 and isinstance(d.targets[0], ast.Name):
+        return d.value
+    if isinstance(d, ast.AnnAssign) and isinstance(d.target, ast.Name):
+        return d.value
+    return None
+
+
+def stmt_of(func, expr):
+    """Innermost statement of func containing expr (identity)."""
+    best = None
+    for s in stmts_in(func.body):
+        for x in ast.walk(s) if not isinstance(s, (ast.If, ast.For, ast.While, ast.With, ast.Try)) else _header_nodes(s):
+            if x is expr:
+                best = s
+    return best
+
+
+def _header_nodes(s):
+    """Expression nodes belonging to the header of a compound statement (not its body)."""
+    parts = []
+    if isinstance(s, (ast.If, ast.While)):
+        parts = [s.test]
+    elif isinstance(s, (ast.For, ast.AsyncFor)):
+        parts = [s.target, s.iter]
+    elif isinstance(s, (ast.With, ast.AsyncWith)):
+        parts = [i.context_expr for i in s.items] + [i.optional_vars for i in s.items if i.optional_vars is not None]
+    for p in parts:
+        yield from ast.walk(p)
